@@ -408,6 +408,8 @@ void run_idle_sweep(Judge& j, uint64_t nbase, int max_idle, const std::vector<in
         if (rng.chance(1, 3)) base.default_attempt.tcp_delay = (vt)rng.pick(std::vector<vt>{300 * MS, 1500 * MS});
         if (rng.chance(1, 3)) { base.net.latency_min = 50 * MS; base.net.latency_max = (vt)rng.pick(std::vector<vt>{200 * MS, 900 * MS}); }
         if (rng.chance(1, 3)) base.net.write_done_delay_max = (vt)rng.pick(std::vector<vt>{5 * MS, 1500 * MS});
+        // a broker with a small Maximum Packet Size: an oversized DISCONNECT loses its properties, nothing else
+        if (rng.chance(1, 5)) base.bcfg.caps.maximum_packet_size = (uint32_t)rng.pick(std::vector<int>{30, 50});
         // the client's own receive limit says nothing about what it may send
         if (rng.chance(1, 3)) base.ccfg.connect_props[boost::mqtt5::prop::maximum_packet_size] = (uint32_t)rng.pick(std::vector<int>{40, 60, 100});
         if (rng.chance(1, 5)) { base.attempts.clear(); AttemptPlan a; a.tcp = AttemptPlan::tcp_hang; base.attempts.push_back(a); base.default_attempt = a; }
